@@ -8,7 +8,8 @@
 (*                  StrKey('^d'): Str}  (dynamic keys d7, d8)              *)
 (*   Kind = "list"  pg.List with value spec List(Int(0..2), min 1, max 3)  *)
 (*   Kind = "obj"   a pg.Object class {k1: Int(min 0) required, k2: Int    *)
-(*                  frozen to 1, k3: the same typed list, k4: Str noneable}*)
+(*                  frozen to 1, k3: List(Int(0..2), 0..2 elements), k4:   *)
+(*                  Str noneable}                                          *)
 (* as a value record of ValueSpec.tla (stored MISSING = VMissing).  There  *)
 (* is one action per public write path; each is fired with acceptable and  *)
 (* with every kind of unacceptable argument.  An action says: the schema   *)
@@ -47,7 +48,7 @@ P(Q) == IF SimK = 0 \/ Cardinality(Q) <= SimK THEN Q ELSE RandomSubset(SimK, Q)
 ---------------------------------------------------------------------------
 (* The schemas *)
 ElemS == IntS(0, 2, FALSE)
-LSpec == ListS(ElemS, 1, 3)
+LSpec == IF Kind = "obj" THEN ListS(ElemS, 0, 2) ELSE ListS(ElemS, 1, 3)    \* the object's list may be empty, holds at most 2
 DSpec == DictS(<< <<1, IntS(0, NONE, FALSE)>>, <<2, Dflt(I0, IntV(1))>>, <<3, LSpec>>, <<0, StrS>> >>)
 OSpec == DictS(<< <<1, IntS(0, NONE, FALSE)>>, <<2, Frz(I0, IntV(1))>>, <<3, LSpec>>, <<4, NonOf(StrS)>> >>)
 RootSpec == CASE Kind = "dict" -> DSpec [] Kind = "obj" -> OSpec [] Kind = "list" -> LSpec
@@ -238,7 +239,7 @@ InitRoots ==
     [] Kind = "dict" -> {DictV(<< <<1, IntV(0)>>, <<2, IntV(1)>>, <<3, l>> >>) : l \in {L1, L3}}
                         \cup {DictV(<< <<1, IntV(2)>>, <<2, IntV(0)>>, <<3, L1>>, <<7, StrV(1)>> >>)}
                         \cup (IF InitPartial THEN {DictV(<< <<1, VMissing>>, <<2, IntV(1)>>, <<3, L1>> >>)} ELSE {})
-    [] Kind = "obj" -> {DictV(<< <<1, IntV(0)>>, <<2, IntV(1)>>, <<3, l>>, <<4, w>> >>) : l \in {L1, L3}, w \in {VNone, StrV(1)}}
+    [] Kind = "obj" -> {DictV(<< <<1, IntV(0)>>, <<2, IntV(1)>>, <<3, l>>, <<4, w>> >>) : l \in {L1, ListV(<<IntV(1), IntV(2)>>)}, w \in {VNone, StrV(1)}}
                         \cup (IF InitPartial THEN {DictV(<< <<1, VMissing>>, <<2, IntV(1)>>, <<3, L1>>, <<4, VNone>> >>)} ELSE {})
 Init == /\ root \in InitRoots /\ pok = InitPartial /\ out = "ok" /\ alts = {root} /\ act = <<"Init">>
 Spec == Init /\ [][Next]_vars
